@@ -26,7 +26,7 @@ EXTENDS Naturals, Integers, Sequences, FiniteSets, TLC, Json, FiniteSetsExt, Seq
 
 CONSTANTS V,        \* labels 1..V, blank = V + 1
           T,        \* frames
-          W,        \* beam width
+          Ws,       \* beam widths explored (the width is fixed per behaviour)
           D,        \* frame weights sum to D
           Mode,     \* "none" | "fusion" (beta = 1) | "mix_half" | "mix_one" (valid mixture, beta = 1/2, 1)
           Dists,    \* set of frame distributions [1..V+1 -> 0..D]
@@ -36,12 +36,13 @@ Blank == V + 1
 L == 3               \* language-model weights sum to L
 E == CASE Mode = "none" -> 1 [] Mode = "fusion" -> L [] Mode = "mix_half" -> 2 * L [] Mode = "mix_one" -> L
 
-VARIABLES lmv,      \* which language-model variant this behaviour uses
+VARIABLES W,        \* beam width of this behaviour
+          lmv,      \* which language-model variant this behaviour uses
           P,        \* 1..T -> frame distribution
           t,        \* frames consumed
           beam,     \* prefix -> <<nb, b>> numerators (paths ending in a label / in blank)
           pruned    \* has any positive-mass candidate been dropped so far?
-vars == <<lmv, P, t, beam, pruned>>
+vars == <<W, lmv, P, t, beam, pruned>>
 
 \* the language model: next-label weights depend on the WHOLE prefix
 RECURSIVE Code(_)
@@ -64,7 +65,8 @@ Total(bm, y) == bm[y][1] + bm[y][2]
 \* comparable mass of candidates of different lengths (common denominator E^MaxLen)
 Scaled(m, y, maxlen) == m * Pow(E, maxlen - Len(y))
 
-Init == /\ lmv \in LMVars
+Init == /\ W \in Ws
+        /\ lmv \in LMVars
         /\ P \in [1..T -> Dists]
         /\ t = 0
         /\ beam = (<<>> :> <<0, 1>>)
@@ -98,7 +100,7 @@ Frame ==
           /\ beam' = [z \in must \cup X |-> full[z]]
           /\ pruned' = (pruned \/ (must \cup X) # pos)
   /\ t' = t + 1
-  /\ UNCHANGED <<P, lmv>>
+  /\ UNCHANGED <<P, lmv, W>>
 
 Next == Frame
 Spec == Init /\ [][Next]_vars
